@@ -18,6 +18,10 @@ type RefStore struct {
 	M  *model.Model
 	// Gate, if set, is called before and after every primitive (outside the mutex): turnstile for controlled schedules.
 	Gate func(phase string, method string, conn *redis.Conn)
+	// SplitRMW makes the read-modify-write primitive Set (with NX, XX or GET) read the old value and write the new
+	// one in two separately locked steps with a Gate("mid") between them - a handler that is not synchronized
+	// itself and relies on the framework executing commands one at a time (as the bundled example store does).
+	SplitRMW bool
 }
 
 func NewRefStore() *RefStore { return &RefStore{M: model.New()} }
@@ -84,6 +88,47 @@ func (s *RefStore) Scan(c *redis.Conn, cursor int, opt redis.ScanOption) (*redis
 	})
 }
 func (s *RefStore) Set(c *redis.Conn, key string, val string, opt redis.SetOption) (*redis.Message, error) {
+	if s.SplitRMW && (opt.NX || opt.XX || opt.GET) {
+		if s.Gate != nil {
+			s.Gate("before", "Set", c)
+		}
+		s.mu.Lock()
+		old := s.M.DB(c.Database()).Get(key)
+		s.mu.Unlock()
+		if s.Gate != nil {
+			s.Gate("mid", "Set", c)
+		}
+		exists := !old.Null && !old.IsError()
+		var v resp.Value
+		switch {
+		case opt.NX && exists:
+			v = model.Int(0)
+			if opt.GET {
+				v = old
+			}
+		case opt.XX && !exists:
+			v = model.Null
+		default:
+			s.mu.Lock()
+			s.M.DB(c.Database()).Set(key, val, model.SetOpts{})
+			s.mu.Unlock()
+			switch {
+			case opt.GET:
+				v = old
+			case opt.NX:
+				v = model.Int(1)
+			default:
+				v = model.OK
+			}
+		}
+		if s.Gate != nil {
+			s.Gate("after", "Set", c)
+		}
+		if v.IsError() {
+			return nil, errors.New(string(v.Data))
+		}
+		return ToMessage(v), nil
+	}
 	return s.do(c, "Set", func(db model.DB) resp.Value {
 		return db.Set(key, val, model.SetOpts{NX: opt.NX, XX: opt.XX, GET: opt.GET})
 	})
